@@ -27,7 +27,7 @@ CONV = {"osu": "OsuToQua", "sm": "SMToQua", "bms": "BMSToQua", "o2j": "O2JToQua"
 
 def pinned(tier):
     repo = os.environ.get("VERIF_REPO", "/repo")
-    return ([dict(cls="corpus", path=p) for p in sorted(glob.glob(os.path.join(repo, "rsc/maps/qua/*.qua")))]) + ([dict(cls="repo_test_suite", select=['tests/unit_tests/qua', 'tests/algorithm_tests/convert'])] if tier == "thorough" else [])
+    return [dict(cls="c_locale")] + ([dict(cls="corpus", path=p) for p in sorted(glob.glob(os.path.join(repo, "rsc/maps/qua/*.qua")))]) + ([dict(cls="repo_test_suite", select=['tests/unit_tests/qua', 'tests/algorithm_tests/convert'])] if tier == "thorough" else [])
 
 
 def gen_doc(rng, cls):
@@ -106,6 +106,9 @@ def run(ctx, case):
     if case.get("cls") == "repo_test_suite":
         from rv.suite import run_repo_tests
         return run_repo_tests(ctx, case.get("select"))
+    if case.get("cls") == "c_locale":
+        from rv.monitors import fileio
+        return fileio.check_c_locale(ctx, "C06", "qua")
     import importlib
 
     from reamber.quaver.QuaMap import QuaMap
